@@ -231,12 +231,27 @@ type Ctx struct {
 	NonT bool             // non-trivial by the property's rule
 	Desc []string         // human description of the run (config, ops) for samples/replay
 	Prop string
+	devIdle int
 	// Sub is set by the driver: a hook to run one workload in a fresh process (C20).
 	Env map[string]string
 }
 
 func NewCtx(prop string, t *Tape, trace bool) *Ctx {
 	return &Ctx{T: t, L: &Log{Trace: trace}, C: map[string]int64{}, Prop: prop, Sig: 0x811c9dc5}
+}
+
+// DevCall is told by the simulated seekable sources how many bytes each device call delivered. A
+// library that keeps calling its source without obtaining a byte (a retry loop that never gives
+// up, a Seek loop) is stopped with a verdict; the bound is far above what the caller operations of
+// any run can cause legitimately (each causes a handful of device calls).
+func (c *Ctx) DevCall(n int) {
+	if n > 0 {
+		c.devIdle = 0
+		return
+	}
+	if c.devIdle++; c.devIdle > 50000 {
+		panic(Abort{V: &Violation{Class: c.Prop + "/livelock-device", Msg: "more than 50000 consecutive calls of the underlying source (Seek, Read, ReadAt) without a single byte delivered"}})
+	}
 }
 
 func (c *Ctx) Count(k string)        { c.C[k]++ }
